@@ -285,9 +285,35 @@ def run(ctx: Ctx):
     er = pkg.func(f"{MOD}::compute_torch_token_data_dir_error_rates")
     where = f"{rel}::{er.qualname}"
     slices = {}
+    rd_er = ReachingDefs(er.node)
+
+    def _bsz(e):  # does the bound come from the batch size (directly, or as `start` / `start + batch_size` of a stepped range)?
+        if e is None:
+            return False
+        return ".batch_size" in u(e) or any(".batch_size" in u(x) for x in rd_er.derives(e).exprs)
     for n in own_nodes(er.node):
         if isinstance(n, ast.Subscript) and isinstance(n.value, ast.Name) and isinstance(n.slice, ast.Slice) and ".batch_size" in u(n.slice):
             slices.setdefault(n.value.id, set()).add(u(n.slice).split(".")[-1] if ":" not in u(n.slice).split(".")[-1] else u(n.slice))
+        elif isinstance(n, ast.Subscript) and isinstance(n.value, ast.Name) and isinstance(n.slice, ast.Slice) and (_bsz(n.slice.lower) or _bsz(n.slice.upper)):
+            # a window [start:end] of a stepped range: counts as the pair of bounds it replaces
+            slices.setdefault(n.value.id, set()).update({"window-lower:" + u(n.slice.lower or ""), "window-upper:" + u(n.slice.upper or "")})
+    # a local closure applied to both lists (`encode(ref_transcripts)`, `encode(hyp_transcripts)`) slices its formal: the slice is
+    # attributed to the list it is called with
+    for g in ast.walk(er.node):
+        if isinstance(g, (ast.FunctionDef, ast.Lambda)) and g is not er.node:
+            formals = [a.arg for a in g.args.args]
+            inner = {}
+            for n in ast.walk(g):
+                if isinstance(n, ast.Subscript) and isinstance(n.value, ast.Name) and n.value.id in formals and isinstance(n.slice, ast.Slice) \
+                        and ".batch_size" in u(n.slice):
+                    inner.setdefault(n.value.id, set()).add(u(n.slice).split(".")[-1] if ":" not in u(n.slice).split(".")[-1] else u(n.slice))
+            gname = getattr(g, "name", None)
+            if inner and gname:
+                for c in own_calls(er.node):
+                    if isinstance(c.func, ast.Name) and c.func.id == gname:
+                        for fm, a in zip(formals, c.args):
+                            if fm in inner and isinstance(a, ast.Name):
+                                slices.setdefault(a.id, set()).update(inner[fm])
     vals = list(slices.values())
     col.ob("G16", "S5", f"{where}::ref-and-hyp-consumed-with-the-same-bounds",
            len(slices) == 2 and vals[0] == vals[1] and len(vals[0]) == 2,
@@ -297,8 +323,10 @@ def run(ctx: Ctx):
     outw = [c for c in own_calls(er.node) if isinstance(c.func, ast.Attribute) and c.func.attr == "write" and u(c.func.value).endswith(".out")]
     col.floor("error_rate_output_sites", len(outw), 2)
     pme = parent_map(er.node)
-    loops = [n for n in own_nodes(er.node) if isinstance(n, ast.While) and any(
+    loops = [n for n in own_nodes(er.node) if isinstance(n, (ast.While, ast.For)) and any(
         call_name(c) == "error_rate" for c in ast.walk(n) if isinstance(c, ast.Call))]
+    # the outermost such loop (the call may sit in the header of an inner per-utterance loop)
+    loops = [n for n in loops if not any(n is not m and any(x is n for x in ast.walk(m)) for m in loops)]
     if len(loops) != 1:
         raise AnalysisError("C17: batching loop of the error-rate command not found")
     inside = {id(x) for x in ast.walk(loops[0])}
@@ -388,8 +416,10 @@ def _per_utterance_divisors(ctx: Ctx):
                 if tn & dn:
                     guarded = True
             cur = par
+        dn_ = {x.id for x in ast.walk(n.right) if isinstance(x, ast.Name)}
         for t, pol in guards_of(pm, n):
-            if any(isinstance(x, ast.Name) and x.id == nm for x in ast.walk(t)):
+            # an enclosing `if` on the sequence itself or on the name that holds the divisor (`if denom: ... / denom`)
+            if any(isinstance(x, ast.Name) and (x.id == nm or x.id in dn_) for x in ast.walk(t)):
                 guarded = True
         clamp = any(isinstance(x, ast.Call) and call_name(x) == "max" for x in ast.walk(n.right)) or \
             any(isinstance(x, ast.BoolOp) and isinstance(x.op, ast.Or) for x in ast.walk(n.right))
